@@ -111,6 +111,37 @@ func PersistChildMain(dir string) {
 		im.Do(op)
 	}
 	im.App.Gobpath = filepath.Join(dir, "state.gob")
+	// the very first save of a data directory, cut short: there is no previous file, and what is left must not be
+	// a file the node refuses to start from
+	firstVerdict := "ok"
+	for _, cut := range []int64{0, 1, 100, 700} {
+		var old syscall.Rlimit
+		if err := syscall.Getrlimit(syscall.RLIMIT_FSIZE, &old); err != nil {
+			firstVerdict = "skipped: " + err.Error()
+			break
+		}
+		signal.Ignore(syscall.SIGXFSZ)
+		lim := old
+		lim.Cur = uint64(cut)
+		if err := syscall.Setrlimit(syscall.RLIMIT_FSIZE, &lim); err != nil {
+			firstVerdict = "skipped: " + err.Error()
+			break
+		}
+		saveErr := im.App.PersistToDisk()
+		_ = syscall.Setrlimit(syscall.RLIMIT_FSIZE, &old)
+		if saveErr == nil {
+			os.Remove(im.App.Gobpath)
+			continue
+		}
+		if _, lerr := app.LoadShutterAppFromFile(im.App.Gobpath); lerr != nil {
+			firstVerdict = fmt.Sprintf("the first save of a data directory, cut short after %d bytes (error %q), left a state file the node cannot start from: %v", cut, saveErr, lerr)
+			break
+		}
+		os.Remove(im.App.Gobpath)
+	}
+	_ = os.WriteFile(filepath.Join(dir, "first-save-verdict"), []byte(firstVerdict), 0o644)
+	os.Remove(im.App.Gobpath)
+	os.Remove(im.App.Gobpath + ".tmp")
 	if err := im.App.PersistToDisk(); err != nil {
 		panic(err)
 	}
@@ -262,6 +293,15 @@ func observedSave(cfg CheckConfig, res *hx.Result, dir string) error {
 					fds[fd] = m[2]
 				}
 			}
+		}
+	}
+	if v, err := os.ReadFile(filepath.Join(sub, "first-save-verdict")); err == nil {
+		res.Count("c13:first-save-checked")
+		res.Extra["c13_first_save"] = string(v)
+		if string(v) != "ok" && !strings.HasPrefix(string(v), "skipped") {
+			path := writeReplay(cfg, "C13-spec-first-save.json", replayFile{Property: "C13", Kind: "spec", What: string(v)})
+			res.Violate(hx.Violation{Kind: "spec", Key: "save-not-atomic", What: string(v), Replay: path})
+			return nil
 		}
 	}
 	if v, err := os.ReadFile(filepath.Join(sub, "failed-save-verdict")); err == nil {
